@@ -131,25 +131,54 @@ def enc_exts(es):
 NAME_TYPES = (2, 5, 12)
 
 
+DNS_STYLES = (0, 1, 2, 3)
+
+
 def dns_bytes(L):
-  """RFC 1035 4.1 message; cmp = 1: a name identical to one already written in full becomes a pointer"""
+  """RFC 1035 4.1 message in the sender's style L["cmp"] (DnsBytes in PktWireLayers.tla): 0 no compression,
+  1 a name identical to one written in full becomes a pointer, 2 the longest suffix starting at any label
+  written earlier becomes a pointer to its first occurrence, 3 as 2 with the starts of earlier names as the
+  only targets"""
   lay = layouts()
+  cmp = L["cmp"]
   h = dict(L)
   h.update(qd=len(L["qs"]), an=len(L["ans"]), ns=len(L["auth"]), ar=len(L["add"]))
   s = bytearray(enc_fixed(lay["dns"], h))
-  seen = []
+  seen = []                                     # (name, offset): the pointer targets remembered so far
 
-  def name_bytes(name):
-    if L["cmp"] == 1:
-      for nm, at in seen:
-        if nm == name:
-          return bytes([192 + at // 256, at % 256]), True
-    return b"".join(bytes([len(l)]) + bytes(l) for l in name) + b"\0", False
+  def seen_at(name):
+    for nm, at in seen:
+      if nm == name:
+        return at
+    return -1
+
+  def labels(ls):
+    return b"".join(bytes([len(l)]) + bytes(l) for l in ls)
 
   def put_name(name, shift=0):
-    enc, ptr = name_bytes(name)
-    if not ptr:
-      seen.append((name, len(s) + shift))
+    n = len(name)
+    if cmp == 0:
+      k = n
+    elif cmp == 1:
+      k = 0 if n > 0 and seen_at(name) >= 0 else n
+    else:
+      k = 0
+      while k < n and seen_at(name[k:]) < 0:
+        k += 1
+    if k == n:
+      enc = labels(name) + b"\0"
+    else:
+      at = seen_at(name[k:])
+      enc = labels(name[:k]) + bytes([192 + at // 256, at % 256])
+    off = len(s) + shift
+    if cmp in (0, 1):
+      if k == n and k > 0:
+        seen.append((name, off))
+    elif cmp == 2:
+      for j in range(k):
+        seen.append((name[j:], off + len(labels(name[:j]))))
+    elif k > 0:
+      seen.append((name, off))
     return enc
 
   for q in L["qs"]:
@@ -164,6 +193,105 @@ def dns_bytes(L):
       enc = put_name(r["rd"]["d"], 2)
       s.extend(len(enc).to_bytes(2, "big") + enc)
   return bytes(s)
+
+
+def dns_names(L):
+  out = [q["name"] for q in L["qs"]]
+  for r in L["ans"] + L["auth"] + L["add"]:
+    out.append(r["name"])
+    if r["rd"]["k"] == "name":
+      out.append(r["rd"]["d"])
+  return out
+
+
+def free_form(stack):
+  """FreeForm in PktWireLayers.tla: two different names of the DNS message share a suffix, so the sender may
+  compress them in many ways (used to choose styles / to route cases; never for a verdict)"""
+  if not stack or stack[-1]["p"] != "dns":
+    return False
+  ns = dns_names(stack[-1])
+  suf = [set(tuple(map(tuple, n[k:])) for k in range(len(n))) for n in ns]
+  return any(ns[i] != ns[j] and suf[i] & suf[j] for i in range(len(ns)) for j in range(i + 1, len(ns)))
+
+
+def styles_of(stack):
+  if not stack or stack[-1]["p"] != "dns":
+    return (0,)
+  return DNS_STYLES if free_form(stack) else (0, 1)
+
+
+def with_style(stack, c):
+  return [dict(L, cmp=c) if L["p"] == "dns" else L for L in stack]
+
+
+def _dns_walk(body, nq, nrr):
+  """(names in wire order, offsets of the pointers met in the message itself) of a DNS message - a plain RFC 1035
+  reader used only to describe a rejected serialisation and to place a negative control, never for a verdict"""
+  ptrs = []
+
+  def name(i, depth=0, top=True):
+    out = []
+    while True:
+      n = body[i]
+      if n >= 192:
+        if top:
+          ptrs.append(i)
+        if depth > 8:
+          raise ValueError("pointer loop")
+        out += name(((n - 192) << 8) | body[i + 1], depth + 1, False)[0]
+        return out, i + 2
+      if n > 63:
+        raise ValueError("bad label length")
+      i += 1
+      if n == 0:
+        return out, i
+      out.append(list(body[i:i + n]))
+      i += n
+
+  names = []
+  i = 12
+  for _ in range(nq):
+    nm, i = name(i)
+    names.append(nm)
+    i += 4
+  for _ in range(nrr):
+    nm, i = name(i)
+    names.append(nm)
+    ty = int.from_bytes(body[i:i + 2], "big")
+    n = int.from_bytes(body[i + 8:i + 10], "big")
+    if ty in NAME_TYPES:
+      names.append(name(i + 10)[0])
+    i += 10 + n
+  return names, ptrs
+
+
+def dns_pointer_offsets(body):
+  h = dec_fixed(layouts()["dns"], body)
+  return _dns_walk(body, h["qd"], h["an"] + h["ns"] + h["ar"])[1]
+
+
+def dns_diagnose(stack, wire):
+  """names what is wrong with bytes TLC refused as a serialisation of a free-form stack (for the signature)"""
+  try:
+    n = len(encode(stack[:-1]))
+    body = bytes(wire[n:])
+    L = stack[-1]
+    try:
+      names = _dns_walk(body, len(L["qs"]), len(L["ans"]) + len(L["auth"]) + len(L["add"]))[0]
+    except Exception:
+      return "names_unreadable"
+    if names != dns_names(L):
+      return "names_differ"
+    around = stack[:-1] + [{"p": "rawb", "data": list(body)}]
+    exp = encode(around)
+    if exp != bytes(wire):
+      i = 0
+      while i < min(len(exp), len(wire)) and exp[i] == wire[i]:
+        i += 1
+      return "enclosing:" + locate(around, i)
+    return "message_differs"
+  except Exception:
+    return "?"
 
 
 def raw_bytes(L):
@@ -316,11 +444,13 @@ def apply_edit(stack, e):
 
 def pad_variants(stack):
   """the serialisations the oracle accepts for one stack: they differ only in where DHCP pad options go
-  (none, or one after every option of odd size) and in whether repeated DNS names are compressed -
-  PadVariants in PktWireLayers.tla"""
+  (none, or one after every option of odd size) and in how DNS names are compressed (the styles the stack
+  admits) - PadVariants in PktWireLayers.tla"""
   out = [stack]
   if any(L["p"] == "dns" for L in stack):
-    out.append([dict(L, cmp=1 - L["cmp"]) if L["p"] == "dns" else L for L in stack])
+    for c in styles_of(stack):
+      if c != stack[-1]["cmp"]:
+        out.append([dict(L, cmp=c) if L["p"] == "dns" else L for L in stack])
   if any(L["p"] == "dhcp" for L in stack):
     alt = []
     for L in stack:
